@@ -25,7 +25,9 @@ var c02Full = []string{
 // arrays used with expression-reference functions
 var c02ExpArrays = []string{c02Long(14, 3), c02Long(13, 2), "[]", `[{"a":2},{"a":1},{"a":2}]`, `[{"a":"y"},{"a":"x"}]`, `[{"a":1},{"a":"x"}]`, `[{"a":null},{"a":1}]`, "[3,1,2]", `["b","a","b"]`,
 	`[[2,"p"],[1,"q"],[2,"r"]]`, `{"a":1}`, `"a"`, "null", `[{"a":true}]`, `[{"a":[1]},{"a":[1,2]}]`}
-var c02ExpRefs = []string{"&a", "&@", "&length(@)", "&$v", "&missing", "&[a][0]", "&a.b", "a", "@", "`1`", "&`1`", "&'k'", "&to_string(a)", "&[0]", "&@[0]", "&$s", "&(a || $s)", "&[$s, a][1]"}
+var c02ExpRefs = []string{"&a", "&@", "&length(@)", "&$v", "&missing", "&[a][0]", "&a.b", "a", "@", "`1`", "&`1`", "&'k'", "&to_string(a)", "&[0]", "&@[0]", "&$s", "&(a || $s)", "&[$s, a][1]",
+	// the key computed by another expression-reference function over the same array (re-entrancy)
+	"&sort_by($all, &a)[0].a", "&max_by($all, &a).a", "&length(map(&a, $all))", "&sort_by([@, @], &a)[0].a", "&min_by([@], &a).a"}
 
 type c02Call struct {
 	Expr  string
@@ -83,7 +85,7 @@ func c02Calls(name string, thorough bool, emit func(c02Call)) {
 					args = []string{"`" + arr + "`", e}
 				}
 				call := name + "(" + strings.Join(args, ", ") + ")"
-				emit(c02Call{Expr: "let $v = `1`, $s = 'k' in " + call, Doc: "null", Shape: name + "/expref/" + c02TypeClass(arr) + "," + strings.TrimLeft(e, "&")})
+				emit(c02Call{Expr: "let $v = `1`, $s = 'k', $all = `" + arr + "` in " + call, Doc: "null", Shape: name + "/expref/" + c02TypeClass(arr) + "," + strings.TrimLeft(e, "&")})
 				// through the document
 				dargs := append([]string{}, args...)
 				if sig.ExprAt(0) {
@@ -91,7 +93,7 @@ func c02Calls(name string, thorough bool, emit func(c02Call)) {
 				} else {
 					dargs[0] = "x"
 				}
-				emit(c02Call{Expr: "let $v = `1`, $s = 'k' in " + name + "(" + strings.Join(dargs, ", ") + ")", Doc: `{"x":` + arr + `}`, Shape: name + "/expref-doc/" + c02TypeClass(arr) + "," + strings.TrimLeft(e, "&")})
+				emit(c02Call{Expr: "let $v = `1`, $s = 'k', $all = x in " + name + "(" + strings.Join(dargs, ", ") + ")", Doc: `{"x":` + arr + `}`, Shape: name + "/expref-doc/" + c02TypeClass(arr) + "," + strings.TrimLeft(e, "&")})
 			}
 		}
 		for n := 0; n <= 3; n++ {
@@ -163,6 +165,13 @@ func c02Calls(name string, thorough bool, emit func(c02Call)) {
 	}
 	// an expression reference where a value is wanted
 	emit(c02Call{Expr: name + "(&@)", Doc: "null", Shape: name + "/expref-in-value-position"})
+	if strings.HasPrefix(name, "trim") {
+		for _, c := range []string{"\ufeff", "\u200b", "\u00a0", "\u0085", "\u1680", "\u2028", "\u3000", "\u001f", "\u00e0", "\u0105", "\U0001f605", "\u180e", "\u2060"} {
+			emit(c02Call{Expr: name + "(x)", Doc: "{\"x\":" + jsonText(c+" a "+c) + "}", Shape: name + "/edge-code-point"})
+			emit(c02Call{Expr: name + "(x, '')", Doc: "{\"x\":" + jsonText(c+"a"+c) + "}", Shape: name + "/edge-code-point"})
+			emit(c02Call{Expr: name + "(x, y)", Doc: "{\"x\":" + jsonText(c+"a"+c) + ",\"y\":" + jsonText(c) + "}", Shape: name + "/edge-code-point"})
+		}
+	}
 	if name == "merge" {
 		// a literal object shared by several evaluations of one call
 		for _, e := range []string{"map(&merge(`{}`, @), `[{\"a\":1},{\"b\":2},{\"c\":3}]`)", "map(&merge(`{\"z\":0}`, @, `{\"y\":1}`), `[{\"a\":1},{\"z\":2},{}]`)", "[{\"a\":1},{\"b\":2}][*].merge(`{\"k\":0}`, @)",
